@@ -458,26 +458,18 @@ def post_op(world, case, info, warns):
         cancelled = any(t <= att["due"] and s == su and sid == att["sid"] and att["sid"] is not None
                         and (o > att["op"] or (o == att["op"] and ai > att.get("aidx", 0)))
                         for (t, s, sid, o, ai) in world.cancels)
-        def _doubtful(b):
-            # the library's resolution of this address is known to deviate from the documented rules (F53 / F54)
-            return b["flags"].get("stage") == "source" or bool(b["flags"].get("spec_is_own_segment"))
+        # a later send under the same id supersedes this one iff it is itself addressed by the documented rules: a
+        # send that is dropped (unresolved / ambiguous) schedules nothing and supersedes nothing. (While F53 / F54
+        # were open, a later send whose address the library resolved differently was left unjudged here.)
         superseded = any(b is not att and b["sender"] == su and b["sid"] == att["sid"] and att["sid"] is not None and b["delay"]
-                         and b["n"] > att["n"] and b["time"] <= att["due"] and b["expect"] in ("actor", "stale") and not _doubtful(b)
+                         and b["n"] > att["n"] and b["time"] <= att["due"] and b["expect"] in ("actor", "stale")
                          for b in world.attempts)
-        # a later send under the same id that SHOULD have been dropped (unresolved / ambiguous by the documented
-        # rules) but that the library may have scheduled: whether it superseded this one is that other defect's
-        # business - this send is then not judged
-        unsure = any(b is not att and b["sender"] == su and b["sid"] == att["sid"] and att["sid"] is not None and b["delay"]
-                     and b["n"] > att["n"] and b["time"] <= att["due"] and _doubtful(b) for b in world.attempts)
         sender_stopped = su in world.stops and world.stops[su][1] <= att["due"]
         if cancelled or superseded or sender_stopped:
             att["forbid"] = True
             att["why"] = "cancelled" if cancelled else "superseded" if superseded else "sender-stopped"
         elif att.get("stale"):
             exp_warn.append("notrunning")
-        elif unsure:
-            if att["target"] is not None and att["serial"] is not None:
-                world.may[(att["target"], att["serial"])] = world.may.get((att["target"], att["serial"]), 0) + 1
         else:
             _expect_delivery(world, att, exp_warn, now, at_due=True)
     world.pending = still
@@ -1097,5 +1089,14 @@ def worker(args):
     flavor, case, timeout = args
     try:
         return run_guarded(flavor, case, timeout)
+    except impl.Hang:
+        # the repeating watchdog fired once more while run_guarded was unwinding: a hang, not a harness crash
+        for _ in range(10):
+            try:
+                signal.setitimer(signal.ITIMER_REAL, 0)
+                break
+            except impl.Hang:
+                continue
+        return ("hang", None)
     except BaseException as e:
         return ("crash", f"HARNESS:{type(e).__name__}: {e}"[:300])
